@@ -379,6 +379,11 @@ def write_replay(prop, engine_name, case, v, tag):
             {
                 "property": prop,
                 "engine": engine_name,
+                "found_with": {"VERIF_SEED": int(os.environ.get("VERIF_SEED", "0") or 0),
+                               "tier": os.environ.get("QSIM_TIER", ""), "repo": REPO,
+                               "note": "the case below is the complete, minimised run "
+                                       "(ops / schedule / faults / clock script); replaying "
+                                       "it does not need the seed"},
                 "case": case,
                 "violation": {
                     "oracle": v["oracle"],
@@ -458,6 +463,7 @@ def run_check(prop, engine_name, tier, seed, jobs, level, extra_evidence=None):
         engine.worker_setup()
     print("qsim: property=%s engine=%s tier=%s VERIF_SEED=%d jobs=%d repo=%s"
           % (prop, engine_name, tier, seed, jobs, REPO), flush=True)
+    os.environ["QSIM_TIER"] = tier
     cases = engine.plan(prop, tier, seed)
     hang_s = getattr(engine, "HANG_S", 600)
     if hasattr(engine, "prepare"):
